@@ -1,5 +1,259 @@
-import Anything.Model.Eval
-import Anything.Spec.Quantity
+import Anything.Lemmas.Mul5
+import Anything.Props.C04
+/-!
+# C13 — quantity arithmetic obeys the field laws
+
+The evaluator's `+`, `-`, `*`, `/` on quantities in proportional units are
+homomorphic images of the specification's operations on SI quantities
+(`Spec.SI.qadd`, `qsub`, `qmul`, `qdiv`) under the reading `siQ` (value in base SI
+units, base dimensions). The field laws then hold for the evaluator's results
+because they hold for `Spec.SI`: for **all** quantities — any rational magnitude, any
+compound of proportional units (literals or facts alike) — where "equal" means the
+same base-SI value and the same base dimensions.
+
+Offset scales (`°C`, `°F`) are excluded by the hypothesis `Proportional`: for them
+`a + b = b + a` is false by the nature of affine units (known finding
+`C13/offset-scale-sum`); the full statement stays visible as `FieldLawsFull`.
+-/
+
 namespace Anything.Props.C13
-theorem C13_placeholder : True := trivial
+open Anything Anything.Eval Anything.Spec Anything.Props.C02 Anything.Props.C04
+
+/-! ### The laws at the specification level -/
+
+theorem dimvec_add_comm (a b : SI.DimVec) : SI.DimVec.add a b = SI.DimVec.add b a := by
+  unfold SI.DimVec.add
+  exact List.zipWith_comm_of_comm (fun x y => Int.add_comm x y)
+
+theorem dimvec_add_assoc (a b c : SI.DimVec) :
+    SI.DimVec.add (SI.DimVec.add a b) c = SI.DimVec.add a (SI.DimVec.add b c) := by
+  unfold SI.DimVec.add
+  induction a generalizing b c with
+  | nil => simp
+  | cons x xs ih =>
+    cases b with
+    | nil => simp
+    | cons y ys =>
+      cases c with
+      | nil => simp
+      | cons z zs => simp [ih, Int.add_assoc]
+
+theorem qmul_comm (a b : SI.Q) : SI.qmul a b = SI.qmul b a := by
+  simp [SI.qmul, mul_comm, dimvec_add_comm]
+
+theorem qmul_assoc (a b c : SI.Q) : SI.qmul (SI.qmul a b) c = SI.qmul a (SI.qmul b c) := by
+  simp [SI.qmul, mul_assoc, dimvec_add_assoc]
+
+theorem qadd_comm (a b r1 r2 : SI.Q) (h1 : SI.qadd a b = .ok r1) (h2 : SI.qadd b a = .ok r2) : r1 = r2 := by
+  unfold SI.qadd at h1 h2
+  split at h1 <;> simp at h1
+  split at h2 <;> simp at h2
+  rename_i hd _
+  rw [← h1, ← h2, hd, add_comm]
+
+theorem qadd_assoc (a b c ab bc r1 r2 : SI.Q) (h1 : SI.qadd a b = .ok ab) (h2 : SI.qadd ab c = .ok r1)
+    (h3 : SI.qadd b c = .ok bc) (h4 : SI.qadd a bc = .ok r2) : r1 = r2 := by
+  unfold SI.qadd at h1 h2 h3 h4
+  split at h1 <;> simp at h1
+  split at h2 <;> simp at h2
+  split at h3 <;> simp at h3
+  split at h4 <;> simp at h4
+  rw [← h2, ← h4, ← h1, ← h3]
+  simp [add_assoc]
+
+theorem qdistrib (a b c bc r : SI.Q) (h1 : SI.qadd b c = .ok bc)
+    (h2 : SI.qadd (SI.qmul a b) (SI.qmul a c) = .ok r) : SI.qmul a bc = r := by
+  unfold SI.qadd at h1 h2
+  split at h1 <;> simp at h1
+  split at h2 <;> simp at h2
+  rw [← h1, ← h2]
+  simp [SI.qmul, mul_add]
+
+/-! ### The evaluator refines the specification -/
+
+/-- Both operands carry a unit, or both are plain numbers. -/
+def SameKind (x y : Numeric) : Prop := (x.unit ≠ [] ∧ y.unit ≠ []) ∨ (x.unit = [] ∧ y.unit = [])
+
+/-- **`+` and `-` refine `qadd` / `qsub`.** -/
+theorem add_refines (s e : Nat) (x y : Numeric) (sub : Bool) (d d' : List Desc) (r : Numeric)
+    (hk : SameKind x y) (px : Proportional x.unit) (py : Proportional y.unit)
+    (h : Eval.add s e x y sub d = (.ok r, d')) :
+    (if sub then SI.qsub (siQ x) (siQ y) else SI.qadd (siQ x) (siQ y)) = .ok (siQ r) ∧ r.unit = x.unit := by
+  rcases hk with ⟨hx, hy⟩ | ⟨hx, hy⟩
+  · unfold Eval.add at h
+    rw [factor_prop x.unit y.unit hx hy px py] at h
+    have ex : x.unit.isEmpty = false := by cases hu : x.unit <;> simp_all
+    by_cases hc : SI.dims (semOf x.unit) = SI.dims (semOf y.unit)
+    · simp only [hc, ↓reduceIte, ex, Bool.false_eq_true, pure, Prod.mk.injEq, Except.ok.injEq] at h
+      obtain ⟨h, _⟩ := h
+      have hs := scale_ne_zero x.unit
+      subst h
+      refine ⟨?_, rfl⟩
+      cases sub
+      · simp only [Bool.false_eq_true, ↓reduceIte, siQ, SI.qadd, hc, scale_semOf, Except.ok.injEq,
+          SI.Q.mk.injEq, and_true]
+        field_simp
+      · simp only [↓reduceIte, siQ, SI.qsub, hc, scale_semOf, Except.ok.injEq, SI.Q.mk.injEq, and_true]
+        field_simp
+    · simp only [hc, ↓reduceIte] at h
+      simp [err, EvalM.throw] at h
+  · unfold Eval.add at h
+    simp only [hx, hy, Compound.factor, List.isEmpty_nil, Bool.or_self, ↓reduceIte, pure, Prod.mk.injEq,
+      Except.ok.injEq] at h
+    obtain ⟨h, _⟩ := h
+    subst h
+    refine ⟨?_, by simp [hx]⟩
+    cases sub <;> simp [siQ, SI.qadd, SI.qsub, hx, hy] <;> ring
+
+/-- **`*` refines `qmul`**, and yields proportional units again. -/
+theorem mul_refines (cfg : Cfg) (s e : Nat) (a b : Numeric) (d d' : List Desc) (r : Numeric)
+    (pa : Proportional a.unit) (pb : Proportional b.unit)
+    (h : mulDiv cfg s e a b false d = (.ok r, d')) :
+    siQ r = SI.qmul (siQ a) (siQ b) ∧ Proportional r.unit := by
+  constructor
+  · rcases C04_mul cfg s e a b d pa pb with ⟨r', hr', heq⟩ | ⟨_, hr'⟩
+    · rw [hr'] at h
+      simp only [Prod.mk.injEq, Except.ok.injEq] at h
+      rw [← h.1]; exact heq
+    · rw [hr'] at h; simp at h
+  · unfold mulDiv at h
+    simp only [Bool.false_eq_true, ↓reduceIte] at h
+    cases hm : Compound.mul cfg.debug a.unit b.unit 1 a.value b.value with
+    | error c =>
+      rw [hm] at h
+      cases c <;> simp [err, EvalM.throw] at h
+    | ok res =>
+      obtain ⟨unit, av, bv⟩ := res
+      rw [hm] at h
+      simp only [pure, Prod.mk.injEq, Except.ok.injEq] at h
+      rw [← h.1]
+      exact mul_prop _ _ _ _ _ _ pa pb _ hm
+
+/-- **`/` refines `qdiv`.** -/
+theorem div_refines (cfg : Cfg) (s e : Nat) (a b : Numeric) (d d' : List Desc) (r : Numeric)
+    (pa : Proportional a.unit) (pb : Proportional b.unit)
+    (h : mulDiv cfg s e a b true d = (.ok r, d')) :
+    SI.qdiv (siQ a) (siQ b) = .ok (siQ r) := by
+  by_cases hb : b.value = 0
+  · rcases C04_div_zero cfg s e a b d pa pb hb with hr' | ⟨_, hr'⟩ <;> (rw [hr'] at h; simp at h)
+  · rcases C04_div cfg s e a b d pa pb hb with ⟨r', hr', heq⟩ | ⟨_, hr'⟩
+    · rw [hr'] at h
+      simp only [Prod.mk.injEq, Except.ok.injEq] at h
+      rw [← h.1]; exact heq
+    · rw [hr'] at h; simp at h
+
+/-! ### The field laws for the evaluator's results -/
+
+section Laws
+variable (cfg : Cfg) (s e : Nat)
+
+/-- **C13 (a + b = b + a).** -/
+theorem C13_add_comm (a b r1 r2 : Numeric) (d d1 d2 : List Desc)
+    (hk : SameKind a b) (pa : Proportional a.unit) (pb : Proportional b.unit)
+    (h1 : Eval.add s e a b false d = (.ok r1, d1)) (h2 : Eval.add s e b a false d = (.ok r2, d2)) :
+    siQ r1 = siQ r2 := by
+  have hk' : SameKind b a := by
+    rcases hk with ⟨x, y⟩ | ⟨x, y⟩
+    · exact Or.inl ⟨y, x⟩
+    · exact Or.inr ⟨y, x⟩
+  have e1 := (add_refines s e a b false d d1 r1 hk pa pb h1).1
+  have e2 := (add_refines s e b a false d d2 r2 hk' pb pa h2).1
+  simp only [Bool.false_eq_true, ↓reduceIte] at e1 e2
+  exact qadd_comm _ _ _ _ e1 e2
+
+/-- **C13 (`a + b` is defined exactly when `b + a` is).** -/
+theorem C13_add_comm_defined (a b : Numeric) (d : List Desc)
+    (ha : a.unit ≠ []) (hb : b.unit ≠ []) (pa : Proportional a.unit) (pb : Proportional b.unit) :
+    (∃ r, Eval.add s e a b false d = (.ok r, d)) ↔ (∃ r, Eval.add s e b a false d = (.ok r, d)) := by
+  rw [C02_add_iff s e a b false d ha hb pa pb, C02_add_iff s e b a false d hb ha pb pa]
+  exact ⟨Eq.symm, Eq.symm⟩
+
+/-- **C13 (a · b = b · a).** -/
+theorem C13_mul_comm (a b r1 r2 : Numeric) (d d1 d2 : List Desc)
+    (pa : Proportional a.unit) (pb : Proportional b.unit)
+    (h1 : mulDiv cfg s e a b false d = (.ok r1, d1)) (h2 : mulDiv cfg s e b a false d = (.ok r2, d2)) :
+    siQ r1 = siQ r2 := by
+  rw [(mul_refines cfg s e a b d d1 r1 pa pb h1).1, (mul_refines cfg s e b a d d2 r2 pb pa h2).1, qmul_comm]
+
+/-- **C13 ((a + b) + c = a + (b + c)).** -/
+theorem C13_add_assoc (a b c ab bc r1 r2 : Numeric) (d d1 d2 d3 d4 : List Desc)
+    (ha : a.unit ≠ []) (hb : b.unit ≠ []) (hc : c.unit ≠ [])
+    (pa : Proportional a.unit) (pb : Proportional b.unit) (pc : Proportional c.unit)
+    (h1 : Eval.add s e a b false d = (.ok ab, d1)) (h2 : Eval.add s e ab c false d = (.ok r1, d2))
+    (h3 : Eval.add s e b c false d = (.ok bc, d3)) (h4 : Eval.add s e a bc false d = (.ok r2, d4)) :
+    siQ r1 = siQ r2 := by
+  obtain ⟨e1, u1⟩ := add_refines s e a b false d d1 ab (Or.inl ⟨ha, hb⟩) pa pb h1
+  obtain ⟨e3, u3⟩ := add_refines s e b c false d d3 bc (Or.inl ⟨hb, hc⟩) pb pc h3
+  have e2 := (add_refines s e ab c false d d2 r1 (Or.inl ⟨by rw [u1]; exact ha, hc⟩) (by rw [u1]; exact pa) pc h2).1
+  have e4 := (add_refines s e a bc false d d4 r2 (Or.inl ⟨ha, by rw [u3]; exact hb⟩) pa (by rw [u3]; exact pb) h4).1
+  simp only [Bool.false_eq_true, ↓reduceIte] at e1 e2 e3 e4
+  exact qadd_assoc _ _ _ _ _ _ _ e1 e2 e3 e4
+
+/-- **C13 ((a · b) · c = a · (b · c)).** -/
+theorem C13_mul_assoc (a b c ab bc r1 r2 : Numeric) (d d1 d2 d3 d4 : List Desc)
+    (pa : Proportional a.unit) (pb : Proportional b.unit) (pc : Proportional c.unit)
+    (h1 : mulDiv cfg s e a b false d = (.ok ab, d1)) (h2 : mulDiv cfg s e ab c false d = (.ok r1, d2))
+    (h3 : mulDiv cfg s e b c false d = (.ok bc, d3)) (h4 : mulDiv cfg s e a bc false d = (.ok r2, d4)) :
+    siQ r1 = siQ r2 := by
+  obtain ⟨e1, p1⟩ := mul_refines cfg s e a b d d1 ab pa pb h1
+  obtain ⟨e3, p3⟩ := mul_refines cfg s e b c d d3 bc pb pc h3
+  rw [(mul_refines cfg s e ab c d d2 r1 p1 pc h2).1, (mul_refines cfg s e a bc d d4 r2 pa p3 h4).1, e1, e3,
+    qmul_assoc]
+
+/-- **C13 (a · (b + c) = a · b + a · c).** The two products are of the same kind
+(both still carry a unit, or both came out dimensionless). -/
+theorem C13_distrib (a b c bc abc ab ac r : Numeric) (d d1 d2 d3 d4 d5 : List Desc)
+    (hb : b.unit ≠ []) (hc : c.unit ≠ [])
+    (pa : Proportional a.unit) (pb : Proportional b.unit) (pc : Proportional c.unit)
+    (h1 : Eval.add s e b c false d = (.ok bc, d1)) (h2 : mulDiv cfg s e a bc false d = (.ok abc, d2))
+    (h3 : mulDiv cfg s e a b false d = (.ok ab, d3)) (h4 : mulDiv cfg s e a c false d = (.ok ac, d4))
+    (hk : SameKind ab ac) (h5 : Eval.add s e ab ac false d = (.ok r, d5)) :
+    siQ abc = siQ r := by
+  obtain ⟨e1, u1⟩ := add_refines s e b c false d d1 bc (Or.inl ⟨hb, hc⟩) pb pc h1
+  obtain ⟨e3, p3⟩ := mul_refines cfg s e a b d d3 ab pa pb h3
+  obtain ⟨e4, p4⟩ := mul_refines cfg s e a c d d4 ac pa pc h4
+  have e2 := (mul_refines cfg s e a bc d d2 abc pa (by rw [u1]; exact pb) h2).1
+  have e5 := (add_refines s e ab ac false d d5 r hk p3 p4 h5).1
+  simp only [Bool.false_eq_true, ↓reduceIte] at e1 e5
+  rw [e3, e4] at e5
+  rw [e2]
+  exact qdistrib _ _ _ _ _ e1 e5
+
+/-- **C13 (a − a = 0)** in `a`'s dimensions. -/
+theorem C13_sub_self (a : Numeric) (d : List Desc) (pa : Proportional a.unit) :
+    ∃ r, Eval.add s e a a true d = (.ok r, d) ∧ siQ r = ⟨0, (siQ a).dim⟩ := by
+  by_cases ha : a.unit = []
+  · refine ⟨{ value := a.value - a.value, unit := [] }, ?_, ?_⟩
+    · simp [Eval.add, Compound.factor, ha, pure]
+    · simp [siQ, ha]
+  · obtain ⟨v, hv⟩ := C02_add_ok s e a a true d ha ha pa pa rfl
+    have := (add_refines s e a a true d d _ (Or.inl ⟨ha, ha⟩) pa pa hv).1
+    refine ⟨_, hv, ?_⟩
+    simp only [↓reduceIte, SI.qsub, sub_self, Except.ok.injEq] at this
+    exact this.symm
+
+/-- **C13 (a / a = 1)**, dimensionless, for non-zero `a`. -/
+theorem C13_div_self (a r : Numeric) (d d' : List Desc) (pa : Proportional a.unit)
+    (h : mulDiv cfg s e a a true d = (.ok r, d')) :
+    siQ r = ⟨1, SI.DimVec.zero⟩ := by
+  have hq := div_refines cfg s e a a d d' r pa pa h
+  rw [siQ_eq] at hq ⊢
+  unfold SI.qdiv at hq
+  split at hq
+  · simp at hq
+  · rename_i hne
+    simp only [Except.ok.injEq] at hq
+    rw [siQ_eq, vecOf_smul, vecOf_add] at hq
+    rw [← hq, div_self hne, vecOf_zero]
+    congr 2; funext b; ring
+
+end Laws
+
+/-- The full statement (all quantities, offset scales included) — **not** a theorem:
+`1 °C + 1 K` and `1 K + 1 °C` differ in SI (known finding `C13/offset-scale-sum`).
+Kept visible; the proved theorems above carry `Proportional`. -/
+def FieldLawsFull : Prop :=
+  ∀ (s e : Nat) (a b r1 r2 : Numeric) (d d1 d2 : List Desc), SameKind a b →
+    Eval.add s e a b false d = (.ok r1, d1) → Eval.add s e b a false d = (.ok r2, d2) → siQ r1 = siQ r2
+
 end Anything.Props.C13
